@@ -303,9 +303,18 @@ def apply_op(w, op):
                 return [], 'skipped'
         elif kind == 'copy':
             src = getattr(w.other, name)
+            donor_before = w.other.to_er7()
             setattr(el, name, src)
             _model_set(w, name, 0, vals[-1])
-            # a later edit of the source must stay invisible
+            if w.other.to_er7() != donor_before:
+                return [('C09-copy-changed-the-source', '%s: source encoded %r before and %r after the copy' % (
+                    name, donor_before, w.other.to_er7()))], kind
+            # later edits of the source - in place and by replacement - must stay invisible in the copy
+            getattr(w.other, name)[0].value = vals[0]
+            vs = compare(w)
+            if vs:
+                return [('C09-copy-is-not-by-value', 'after editing the source child in place: ' + vs[0][1])], kind
+            getattr(w.other, name)[0].value = vals[-1]
             setattr(w.other, name, vals[0])
             setattr(w.other, name, vals[-1])
         else:
